@@ -198,17 +198,91 @@ def signature(case, tgrids, X, k, ugrids=None, U=None):
     return 'none'
 
 
+NATIVE_DOMAINS = [(1e-3, 0.0), (1e-3, 5.0), (1.0, 1e6), (1e-2, 1e5), (1e4, -0.5), (1e9, 0.0), (2.0, 1e3), (1.0, 0.0)]
+
+
+def run_native_case(ctx, res, seed, k=None):
+    """components on narrow / far-offset / huge domains with the library's OWN Leja grids (no transplant): the nodes must be
+    distinct, roughly the image of the unit Leja grid (up to the mirror symmetry and the optimiser's resolution), and the
+    surrogate must stay exact for polynomials of the full tensor space — values, gradients and Hessians"""
+    rng = random.Random(seed)
+    nin = rng.choice([1, 2]) if k is None else 1 + (k // len(NATIVE_DOMAINS)) % 2
+    doms = [rng.choice(NATIVE_DOMAINS) for _ in range(nin)]       # (width, offset in widths)
+    if k is not None:
+        doms[0] = NATIVE_DOMAINS[k % len(NATIVE_DOMAINS)]          # every run covers every domain kind
+    domains = [(off * w, off * w + w) for w, off in doms]
+    beta_lim = (4,) if nin == 1 else (3, rng.choice([2, 3]))
+    kpl = 2
+    npts = [kpl * b + 1 for b in beta_lim]
+    terms = []
+    for _ in range(rng.randint(3, 5)):
+        terms.append((rng.choice([-2, -1, 1, 2, 3]) * rng.random(), [rng.randint(0, n - 1) for n in npts]))
+
+    def unit(d, t):
+        return (t - domains[d][0]) / (domains[d][1] - domains[d][0])
+
+    def f(alpha, x):
+        u = [unit(d, x[f'x{d}']) for d in range(nin)]
+        return {'y0': float(sum(c * np.prod([u[d] ** e[d] for d in range(nin)]) for c, e in terms))}
+    comp, rec = cc.build_component(f, nin, ['y0'], (), beta_lim, (), domains, None, None, kpl, vectorized=False, maxfun=300)
+    cc.random_history(rng, comp, 60)          # to exhaustion: the full tensor index is reached
+    info = {'native': seed, 'k': k, 'domains': domains, 'beta_lim': list(beta_lim)}
+    names = [f'x{d}' for d in range(nin)]
+    useq = unit_sequence(max(npts))
+    for d, n in enumerate(names):
+        g = [unit(d, float(v)) for v in comp.training_data.x_grids[n]]
+        gs = sorted(g)
+        if min(b - a for a, b in zip(gs, gs[1:])) < 1e-3:
+            res.failures.append({'kind': 'native-grid-has-(near-)duplicate-nodes', 'signature': 'none', 'input': {**info, 'dim': d},
+                                 'observed': g})
+        ref = useq[:len(g)]
+        dev = min(max(abs(a - b) for a, b in zip(g, ref)), max(abs(a - (1 - b)) for a, b in zip(g, ref)))
+        # (not a failure by itself: ties of the Leja objective are broken differently on shifted domains; reported)
+        res.hit('native-grid-is-image-of-unit-grid' if dev < 5e-3 else 'native-grid-differs-from-unit-image')
+    ratio = max(abs(lo) / (hi - lo) for lo, hi in domains)
+    tol = 1e-7 + 3e3 * 2.3e-16 * ratio * max(npts) ** 2
+    pts = [[lo + (0.05 + 0.9 * rng.random()) * (hi - lo) for lo, hi in domains] for _ in range(8)]
+    pts += [[float(rng.choice(list(comp.training_data.x_grids[n]))) for n in names] for _ in range(3)]
+    X = {n: np.array([p[d] for p in pts]) for d, n in enumerate(names)}
+    y = np.asarray(comp.predict(X, index_set='train')['y0']).reshape(-1)
+    jac = np.asarray(comp.gradient(X, index_set='train')['y0']).reshape(len(pts), nin)
+    scale = sum(abs(c) for c, _ in terms)
+    for k, p in enumerate(pts):
+        u = [unit(d, p[d]) for d in range(nin)]
+        exact = sum(c * np.prod([u[d] ** e[d] for d in range(nin)]) for c, e in terms)
+        if not abs(y[k] - exact) <= tol * scale:
+            res.failures.append({'kind': 'polynomial-not-reproduced-on-native-grid', 'signature': 'none',
+                                 'input': {**info, 'point': p}, 'observed': float(y[k]), 'expected': float(exact)})
+        for m in range(nin):
+            w = domains[m][1] - domains[m][0]
+            dex = sum(c * e[m] * (u[m] ** (e[m] - 1) if e[m] > 0 else 0.0) * np.prod([u[d] ** e[d] for d in range(nin) if d != m])
+                      for c, e in terms) / w
+            if not abs(jac[k, m] - dex) * w <= 50 * tol * scale * max(npts) ** 2:
+                res.failures.append({'kind': 'gradient-of-polynomial-wrong-on-native-grid', 'signature': 'none',
+                                     'input': {**info, 'point': p, 'direction': m}, 'observed': float(jac[k, m]),
+                                     'expected': float(dex)})
+    res.hit('native-case')
+    res.case(('native', seed), True, info)
+
+
 def run(ctx: core.Ctx, only=None) -> core.Result:
     res = core.Result()
     res.rule = ('twin components: unit domains vs per-input affine images with widths 1e-9..1e9 and offsets up to 1e6 '
                 'widths, transplanted Leja grids, polynomial models in the surrogate space, random admissible histories; '
                 'points interior / on nodes / near nodes / outside; predictions, gradients (x a), Hessians (x a_m a_n) and '
-                'exactness compared. non-trivial = >= 3 active indices and some width differing from 1 by >= 1e3.')
+                'exactness compared; plus components with the library\'s own Leja grids on narrow / far-offset / huge domains '
+                '(distinct nodes, exact values and gradients of full-tensor polynomials). non-trivial = >= 3 active indices and some width differing from 1 by >= 1e3.')
     lines, post = [], []
     keys = ('nin', 'beta_lim', 'kpl', 'nout', 'a', 'b', 'nsteps', 'fseed')
     cases = [o.get('input', o) for o in only] if only is not None else core.corpus_cases('C17') + \
         [gen_case(ctx.rng, ctx.quick) for _ in range(ctx.scale(24, 250))]
+    if only is None:
+        cases = cases + [{'native': ctx.rng.randrange(10 ** 6), 'k': k} for k in range(ctx.scale(8, 16))]
     for case in cases:
+        if 'native' in case:
+            with core.guarded(res, 'scenario-raised', case):
+                run_native_case(ctx, res, case['native'], case.get('k'))
+            continue
         case = {k: (tuple(case[k]) if k == 'beta_lim' else case[k]) for k in keys}
         with core.guarded(res, 'scenario-raised', case):
             run_case(ctx, res, case, lines, post)
